@@ -276,15 +276,20 @@ func callBloom(stream string, fl *wire.MsgFilterLoad, datas [][]byte, txs []*bch
 	nontriv := fl != nil && fl.HashFuncs > 0
 	for _, d := range datas {
 		d := d
-		g("bloom.Matches", stream, k+"|"+string(d), budget{n: flLen(fl) + len(d)}, flReplay(fl, map[string]interface{}{"data": vh.Hex(d)}), func() bool {
+		var mres bool
+		okM := g("bloom.Matches", stream, k+"|"+string(d), budget{n: flLen(fl) + len(d)}, flReplay(fl, map[string]interface{}{"data": vh.Hex(d)}), func() bool {
 			f := bloom.LoadFilter(cloneFL(fl))
 			_ = f.IsLoaded()
-			_ = f.Matches(d)
+			mres = f.Matches(d)
 			return nontriv
 		})
-		g("bloom.Add", stream, k+"|"+string(d), budget{n: flLen(fl) + len(d)}, flReplay(fl, map[string]interface{}{"data": vh.Hex(d)}), func() bool {
+		var after []byte
+		okA := g("bloom.Add", stream, k+"|"+string(d), budget{n: flLen(fl) + len(d)}, flReplay(fl, map[string]interface{}{"data": vh.Hex(d)}), func() bool {
 			f := bloom.LoadFilter(cloneFL(fl))
 			f.Add(d)
+			if m := f.MsgFilterLoad(); m != nil {
+				after = append([]byte(nil), m.Filter...)
+			}
 			_ = f.Matches(d)
 			if len(d) >= 32 {
 				var h chainhash.Hash
@@ -294,6 +299,18 @@ func callBloom(stream string, fl *wire.MsgFilterLoad, datas [][]byte, txs []*bch
 			_ = f.MsgFilterLoad()
 			return nontriv
 		})
+		// correspondence with the checked model (NoPanic/BloomNP.v), small arrays only
+		if okM && okA && (fl == nil || len(fl.Filter) <= 128) && bloomCases < cfg.Scale(120, 600) {
+			bloomCases++
+			if fl == nil {
+				cases.Add(fmt.Sprintf("BloomM false [] 0 0 0 %s %s", vh.CoqBytes(d), vh.CoqBool(mres)), map[string]interface{}{"op": "bloom.Matches (unloaded)", "data": vh.Hex(d), "impl": mres})
+			} else {
+				cases.Add(fmt.Sprintf("BloomM true %s %d %d %d %s %s", vh.CoqBytes(fl.Filter), fl.HashFuncs, fl.Tweak, uint8(fl.Flags), vh.CoqBytes(d), vh.CoqBool(mres)),
+					map[string]interface{}{"op": "bloom.Matches", "filter": vh.Hex(fl.Filter), "hash_funcs": fl.HashFuncs, "tweak": fl.Tweak, "data": vh.Hex(d), "impl": mres})
+				cases.Add(fmt.Sprintf("BloomA %s %d %d %d %s %s", vh.CoqBytes(fl.Filter), fl.HashFuncs, fl.Tweak, uint8(fl.Flags), vh.CoqBytes(d), vh.CoqBytes(after)),
+					map[string]interface{}{"op": "bloom.Add", "filter": vh.Hex(fl.Filter), "hash_funcs": fl.HashFuncs, "tweak": fl.Tweak, "data": vh.Hex(d), "impl_filter_after": vh.Hex(after)})
+			}
+		}
 		var h chainhash.Hash
 		copy(h[:], d)
 		idx := uint32(len(d)) * 0x01010101
@@ -354,20 +371,44 @@ func merkleReplay(msg *wire.MsgMerkleBlock) func() interface{} {
 	}
 }
 
+var bloomCases, merkleCases int
+
+// inChild is set in the memory-capped child process; only there may a message declare more than
+// 2^22 transactions (code that sizes anything by the declared count would otherwise be able to take the
+// harness, and the machine, down instead of being reported).
+var inChild bool
+
 func callMerkle(stream string, msg *wire.MsgMerkleBlock) {
+	if !inChild && msg.Transactions > 1<<22 {
+		c := *msg
+		c.Transactions = 1 << 22
+		msg = &c
+	}
 	n := 84 + 32*len(msg.Hashes) + len(msg.Flags)
 	key := fmt.Sprintf("%d|%x|", msg.Transactions, msg.Flags)
 	for _, h := range msg.Hashes {
 		key += string(h[:4])
 	}
-	g("merkleblock.ExtractMatches", stream, key, budget{n: n}, merkleReplay(msg), func() bool {
+	var accepted, bad bool
+	ok := g("merkleblock.ExtractMatches", stream, key, budget{n: n}, merkleReplay(msg), func() bool {
 		pb := merkleblock.NewMerkleBlockFromMsg(*msg)
 		root := pb.ExtractMatches()
 		_ = pb.GetMatches()
 		_ = pb.GetItems()
-		_ = pb.BadTree()
+		accepted, bad = root != nil, pb.BadTree()
 		return root != nil
 	})
+	// correspondence with the model whose no-panic theorem is in Props/C08.v: tiny messages only
+	// (each inner node costs two SHA-256 evaluations inside Coq)
+	if ok && cases != nil && len(msg.Hashes) <= 6 && len(msg.Flags) <= 3 && merkleCases < cfg.Scale(60, 300) {
+		merkleCases++
+		hs := make([]string, len(msg.Hashes))
+		for i, h := range msg.Hashes {
+			hs[i] = vh.CoqBytes(h[:])
+		}
+		cases.Add(fmt.Sprintf("MerkleX %d %d %s %s %s %s", merkleblock.MaxTxnCount, msg.Transactions, vh.CoqList(hs), vh.CoqBytes(msg.Flags), vh.CoqBool(accepted), vh.CoqBool(bad)),
+			map[string]interface{}{"op": "merkleblock.ExtractMatches", "msg": merkleReplay(msg)(), "impl_accepted": accepted, "impl_bad_tree": bad})
+	}
 }
 
 // chainBlock builds the scan family: transaction k spends one output of every earlier transaction,
